@@ -15,7 +15,7 @@ CONSTANTS
   FaultKinds <- NoFaults
   FinFirst = FALSE
   RvCheck = TRUE
-  FixDeleting = FALSE
+  FixDeleting = TRUE
   FixMiss = FALSE
   FixStale = FALSE
 VIEW view
